@@ -63,6 +63,13 @@ def binop(it, st, op, a: V, b: V, node) -> V:
     eng = it.eng
     a = eng.unbox(st, a)
     b = eng.unbox(st, b)
+    # arithmetic between a number and an opaque value (a timeout read from the request extensions, say): the opaque
+    # operand is taken to be a number, as in comparisons and min / max
+    if isinstance(op, (ast.Add, ast.Sub, ast.Mult)):
+        if isinstance(a, VVal) and isinstance(b, (VInt, VReal)):
+            a = eng.coerce(st, a, "real")
+        elif isinstance(b, VVal) and isinstance(a, (VInt, VReal)):
+            b = eng.coerce(st, b, "real")
     if isinstance(op, ast.Add):
         if isinstance(a, VInt) and isinstance(b, VInt):
             return VInt(a.t + b.t)
